@@ -19,6 +19,7 @@ func init() {
 		Technique: "static analysis: forward taint from zip entry names to file-creating sinks (with summaries of repository helpers) sanitised only by a dominating containment guard; shape check of the containment predicate (go/ssa)",
 		Explanation: "R1: no value derived from archive/zip entry names (File.Name / FileHeader.Name, through filepath.Join/Split/Dir/Clean/Base, concatenation, Sprintf, phi) reaches a file-system creating call (os.Create, os.OpenFile, os.Mkdir(All), os.WriteFile, os.Rename, and repository functions whose parameter reaches one) unless the sink is dominated by the true edge of a containment test applied to that value (or to the value it is the Dir of). " +
 			"R3: the name ZipFolder/ZipWriter gives an archive entry derives from the walked file path only through injective operations (slicing off the source prefix, filepath.Rel, Join, ToSlash, TrimPrefix); cut-set trims, case folding, Replace and Base are rejected - a necessary condition of the lossless round trip. " +
+			"R4: files are created truncating (os.Create, or os.OpenFile with O_TRUNC/O_EXCL). " +
 			"R2: the containment test is filepath.IsLocal, or a repository predicate built from filepath.Rel plus the '..' test, or strings.HasPrefix against a prefix that ends with a path separator; a bare string-prefix test (which accepts sibling directories such as out-old for out) is rejected.",
 		NotDecided: "the lossless round trip ZipFolder -> UnzipToFolder as such (equal relative paths and contents for every tree; filter and recursive flag semantics) is a value statement over file trees; only injectivity of the name mapping (R3) is decided; symbolic links already present inside the destination.",
 		Trusted:    []string{"archive/zip entry names are attacker controlled", "filepath.Rel / filepath.IsLocal semantics"},
@@ -308,6 +309,12 @@ func runC20(c *Ctx) {
 					detail = "the only containment test on this path is unsound: " + weak
 				}
 				c.Decide("C20.R1", fn, "entry name -> "+shortCallee(call)+" is guarded", call, guarded, detail)
+				// R4: an extracted file is created truncating (os.Create, or OpenFile with O_TRUNC / O_EXCL)
+				if ir.CalleeFullName(call) == "os.OpenFile" {
+					fl, isC := ir.ConstInt(call.Common().Args[1])
+					c.Decide("C20.R4", fn, "extracted file is created truncating", call, isC && (fl&0x200 != 0 || fl&0x80 != 0),
+						"the extracted file is opened with O_CREATE but without O_TRUNC (or O_EXCL): extracting over a longer existing file keeps its old tail, the unzipped content differs from the archived one")
+				}
 			}
 		}
 	}
